@@ -134,6 +134,16 @@ CHECKS = {
         "variables may be a superset; FP / string metadata is outside this check's operator table.",
         "DESIGN.md §2 C05",
     ),
+    "C10": (
+        "model_checking",
+        "explicit-state BFS over expressions (E1) and over solver prefix histories (E4); every cheap truth entry point asked in both orders and twice; truth-table / brute-force model-set oracle",
+        "A: every distinct Bool state of the E1 traversal (widths 1-3, thorough 1-4) through claripy.is_true/is_false, "
+        "Bool.is_true/is_false and the z3 / concrete backends, forwards, backwards and twice with the truth caches "
+        "emptied between orders. B: every solver state reached by <=2 (thorough 3) prefix events on six frontend "
+        "classes asked is_true / is_false for 14 Bool expressions x extra-constraint sets; True must hold in every model.",
+        "A False answer is never judged. The VSA backend's Boolean answers are judged by C24 (soundness of VSA evaluation).",
+        "DESIGN.md §2 C10",
+    ),
 }
 
 NOT_YET = "check not built yet in this session (planned; see DESIGN.md §2)"
